@@ -196,3 +196,13 @@ Definition atm_of_src (s : sstyle) : atm_style :=
         (N.testbit e BOLD || match fg with Some (_, true) => true | _ => false end)
         (N.testbit e DIMMED) (N.testbit e ITALIC) (N.testbit e UNDERLINE)
         (N.testbit e BLINK) (N.testbit e INVERT) (N.testbit e HIDDEN) (N.testbit e STRIKETHROUGH).
+
+(* the anstyle styles whose indexed / RGB payloads are bytes (with Spec/Targets.ad_src_ok:
+   exactly the values of the Rust type anstyle::Style) *)
+Definition atm_src_colour_ok (c : option colour) : Prop :=
+  match c with
+  | Some (CIdx n) => n < 256
+  | Some (CRgb r g b) => r < 256 /\ g < 256 /\ b < 256
+  | _ => True
+  end.
+Definition atm_src_ok (s : sstyle) : Prop := atm_src_colour_ok (s_fg s) /\ atm_src_colour_ok (s_bg s).
